@@ -31,6 +31,49 @@ theorem liveSchema_of_facts {S : Schema} (h : Facts S) : LiveSchema S := by
   have := hok.fill t q hq
   intro hn; rw [hn] at this; cases this
 
+theorem wrapWF_of_facts {S : Schema} (h : Facts S) (t q : Nat) : WrapWF S (S.dfa t) q := by
+  have hok := h.SchemaOk
+  refine ⟨fun e he => (hok.edge t q e he).2, fun nt hnt e he => ?_⟩
+  obtain ⟨w, hw, rfl⟩ := List.getElem_of_mem hnt
+  have hw' : w < S.nodes.size := by simpa using hw
+  have hd : S.dfa w = S.nodes.toList[w].dfa := by simp [Schema.dfa, Schema.nodeType, hw']
+  rw [← hd] at he
+  exact (hok.edge w 0 e he).2
+
+/-- `PM.C15.findWrapping_complete` with its schema guards discharged for the bundled schema family -/
+theorem findWrapping_complete (S : Schema) (hS : S ∈ familySchemas) (t : TypeId) (q : Nat) (target : TypeId)
+    (chain : List TypeId) (hc : isWrapChain S (S.dfa t) q target chain = true) :
+    findWrapping S (S.dfa t) q target ≠ none :=
+  PM.C15.findWrapping_complete S (S.dfa t) q (wrapWF_of_facts (family_facts _ hS) t q) target chain hc
+
+/-- `PM.C15.findWrapping_shortest_complete` with its schema guards discharged for the bundled schema family -/
+theorem findWrapping_shortest_complete (S : Schema) (hS : S ∈ familySchemas) (t : TypeId) (q : Nat)
+    (target : TypeId) (chain : List TypeId) (hc : isWrapChain S (S.dfa t) q target chain = true) :
+    ∃ c, findWrapping S (S.dfa t) q target = some c ∧ isWrapChain S (S.dfa t) q target c = true ∧ c.length ≤ chain.length :=
+  PM.C15.findWrapping_shortest_complete S (fun w => (family_facts _ hS).Det w 0) (S.dfa t) q
+    (wrapWF_of_facts (family_facts _ hS) t q) target chain hc
+
+/-- `PM.C15.findWrappingTypes_eq` with its schema guards discharged for the bundled schema family -/
+theorem findWrappingTypes_eq (S : Schema) (hS : S ∈ familySchemas) (t : TypeId) (q : Nat) (target : TypeId) :
+    findWrappingTypes S (S.dfa t) q target = findWrapping S (S.dfa t) q target :=
+  PM.C15.findWrappingTypes_eq S (S.dfa t) q (wrapWF_of_facts (family_facts _ hS) t q) target
+
+/-- `PM.C15.findWrappingTypes_shortest_complete` with its schema guards discharged for the bundled schema family -/
+theorem findWrappingTypes_shortest_complete (S : Schema) (hS : S ∈ familySchemas) (t : TypeId) (q : Nat)
+    (target : TypeId) (chain : List TypeId) (hc : isWrapChain S (S.dfa t) q target chain = true) :
+    ∃ c, findWrappingTypes S (S.dfa t) q target = some c ∧ isWrapChain S (S.dfa t) q target c = true ∧
+    c.length ≤ chain.length :=
+  PM.C15.findWrappingTypes_shortest_complete S (fun w => (family_facts _ hS).Det w 0) (S.dfa t) q
+    (wrapWF_of_facts (family_facts _ hS) t q) target chain hc
+
+/-- `PM.C15.findWrappingTypes_sound_shortest` with its schema guards discharged for the bundled schema family -/
+theorem findWrappingTypes_sound_shortest (S : Schema) (hS : S ∈ familySchemas) (t : TypeId) (q : Nat)
+    (target : TypeId) (c : List TypeId) (h : findWrappingTypes S (S.dfa t) q target = some c) :
+    isWrapChain S (S.dfa t) q target c = true ∧
+    ∀ chain, isWrapChain S (S.dfa t) q target chain = true → c.length ≤ chain.length :=
+  PM.C15.findWrappingTypes_sound_shortest S (fun w => (family_facts _ hS).Det w 0) (S.dfa t) q
+    (wrapWF_of_facts (family_facts _ hS) t q) target c h
+
 /-- `PM.C15.findWrapping_sound` with its schema guards discharged for the bundled schema family -/
 theorem findWrapping_sound (S : Schema) (hS : S ∈ familySchemas) (d : Dfa) (q : Nat) (target : TypeId)
     (chain : List TypeId) (h : findWrapping S d q target = some chain) :
